@@ -43,6 +43,9 @@ void case_impl(Ctx &c, bool resync, bool bursts = false) {
     if (r.f.size() >= 2) many_fields = true;
     add_rpdo(w, p, r.id | (invalid ? 0x80000000u : 0), type, maps, 8);
   }
+  // mode sync-id-rewritten: the node also has event-driven TPDOs without mapping on the four channels (they never transmit by themselves); a client
+  // switches them off and on while the node runs - which is none of the RPDOs' business
+  TpdoCfg tp[4]; if (resync) for (int p = 0; p < 4; p++) tp[p] = add_tpdo(w, p, 0x40000180u + 0x100u * (uint32_t)p + s.nodeid, 255, 0, 0, {}, 1);
   w.finish();
   for (int i = 0; i < 6; i++) ob[i] = w.lookup(0x2100, (uint8_t)(i + 1));
   if (c.logging) for (int p = 0; p < 4; p++) if (ch[p].present) { std::string d; for (auto &f : ch[p].f) d += (f.obj < 0 ? "dummy/" : "obj" + std::to_string(f.obj + 1) + "/") + std::to_string(f.bytes) + " "; VLOG(c, "RPDO %d: id %03X %s %s fields: %s", p, ch[p].id, ch[p].en ? "valid" : "INVALID", ch[p].sync ? "synchronous" : "asynchronous", d.c_str()); }
@@ -60,10 +63,10 @@ void case_impl(Ctx &c, bool resync, bool bursts = false) {
   };
   int mode = 2; bool registered = false; int syncs_seen_by_sync_rpdo = 0;
   uint32_t syncid = 0x80; int sync_rewrites = 0; SdoClient cl(s, w.req[0], w.rsp[0]);   // mode sync-id-rewritten: a client moves the SYNC identifier (1005h) while the node runs
-  int steps = 0; bool repeated_start = false; uint32_t burst_max = 0;
+  int steps = 0; bool repeated_start = false; uint32_t burst_max = 0; int tpdo_toggles = 0;
   while (!c.t.exhausted() && steps < 120) {
     steps++; c.ops++;
-    static const uint16_t W[5] = {50, 25, 12, 8, 5}, WR[6] = {50, 25, 12, 8, 5, 8}, WB[7] = {40, 25, 8, 8, 5, 0, 30};
+    static const uint16_t W[5] = {50, 25, 12, 8, 5}, WR[8] = {50, 25, 12, 8, 5, 8, 0, 8}, WB[7] = {40, 25, 8, 8, 5, 0, 30};
     uint32_t op = bursts ? c.t.weighted(WB) : resync ? c.t.weighted(WR) : c.t.weighted(W);   // mode "random" keeps the alphabet the saved witnesses were recorded with
     s.clear_tx();
     if (op == 6) {        // mode frame-bursts: k frames for one valid RPDO with no SYNC in between; only the last one counts for a synchronous RPDO, each one is applied for an asynchronous one
@@ -78,6 +81,15 @@ void case_impl(Ctx &c, bool resync, bool bursts = false) {
       if (r.sync) { memcpy(r.buf, f.d, 8); r.pend = true; }
       VLOG(c, "burst of %u frames on %03X (%s), last %s", k, r.id, r.sync ? "synchronous: the last one is applied at the next SYNC" : "asynchronous", f.str().c_str());
       burst_max = k > burst_max ? k : burst_max; compare("a burst of RPDO frames"); continue;
+    }
+    if (op == 7) {        // a TPDO COB-ID is switched off / on through SDO
+      if (mode == 4) continue;
+      int p = (int)c.t.below(4); uint32_t nv = *tp[p].id ^ 0x80000000u;
+      uint32_t code = cl.write((uint16_t)(0x1800 + p), 1, nv, 4);
+      CHECK(c, code == 0, "harness", "toggling the valid bit of 18%02Xh:1 refused with %08X", p, code);
+      VLOG(c, "18%02Xh:1 := %08X", p, nv); s.clear_tx(); tpdo_toggles++;
+      { size_t off = s.ndict * 8; for (auto &b : s.blocks) { if (!b.storage) continue; if (b.p == (uint8_t *)tp[p].id) for (int i = 0; i < 4; i++) model[off + i] = (uint8_t)(nv >> (8 * i)); off += b.n; } }
+      compare("a write to a TPDO COB-ID"); continue;
     }
     if (op == 5) {        // the SYNC identifier is rewritten through SDO (the node is a SYNC consumer: any 11-bit identifier may be written at any time)
       if (mode == 4) continue;
@@ -123,7 +135,7 @@ void case_impl(Ctx &c, bool resync, bool bursts = false) {
     } else { for (int i = 0; i < 2; i++) s.step_tick(); compare("ticks"); }
   }
   if (many_fields || has_dummy || syncs_seen_by_sync_rpdo >= 2) c.nontrivial = true;
-  if (sync_rewrites) c.cls("sync-identifier-rewritten-at-run-time");
+  if (sync_rewrites) c.cls("sync-identifier-rewritten-at-run-time"); if (tpdo_toggles) c.cls("tpdo-switched-off-or-on-at-run-time");
   if (burst_max >= 256) c.cls("burst-of-256-or-more-frames-between-two-syncs"); if (burst_max >= 65536) c.cls("burst-of-65536-or-more-frames");
   if (has_dummy) c.cls("mapping-with-dummy"); if (many_fields) c.cls("two-or-more-fields"); if (syncs_seen_by_sync_rpdo >= 2) c.cls("sync-rpdo-saw-two-syncs");
 }
@@ -135,7 +147,7 @@ void burst_case(Ctx &c) { case_impl(c, false, true); }
 Registrar reg(Prop{
     "C13",
     "Cases: node id 1..127; RPDO table: each of 4 channels absent / asynchronous (254/255) / synchronous (type 0..240), valid or invalid COB-ID, distinct or colliding identifiers; mappings of 0..8 fields drawn from two 8-bit, one 16-bit, one 32-bit and one 24-bit-of-32 object and the dummy entries 0002h..0007h with their natural widths, total <= 8 bytes; "
-    "histories of up to 120 ops: RPDO frames with the mapped length or longer and random payloads, near-miss identifiers, SYNCs (DLC 0/1), NMT start/stop/pre-operational and repeated NMT start while OPERATIONAL, local writes, ticks; mode sync-id-rewritten adds SDO writes that move the SYNC identifier 1005h among {80h, 90h, 100h} at run time and frames on the former identifiers (which are then any other identifier); mode frame-bursts delivers 1..600, 254..1026 or 65534..65537 frames to one RPDO without a SYNC in between (a synchronous RPDO applies the last one at the next SYNC, exactly once). "
+    "histories of up to 120 ops: RPDO frames with the mapped length or longer and random payloads, near-miss identifiers, SYNCs (DLC 0/1), NMT start/stop/pre-operational and repeated NMT start while OPERATIONAL, local writes, ticks; mode sync-id-rewritten adds SDO writes that move the SYNC identifier 1005h among {80h, 90h, 100h} at run time and frames on the former identifiers (which are then any other identifier) and SDO writes that switch an event-driven TPDO of the same channel numbers off and on; mode frame-bursts delivers 1..600, 254..1026 or 65534..65537 frames to one RPDO without a SYNC in between (a synchronous RPDO applies the last one at the next SYNC, exactly once). "
     "Oracle: model dictionary compared with a full storage snapshot after every step (asynchronous: consecutive little-endian fields written at once, dummies skipped by width; synchronous: buffered, applied at the next SYNC exactly once; nothing outside OPERATIONAL or for other identifiers; everything else byte-identical). "
     "Non-trivial: the case has a mapping with >= 2 fields or a dummy, or a synchronous RPDO saw >= 2 SYNCs. Distinct = distinct decoded choice sequence.",
     {Mode{"random", one_case, false, 1000000, 20000000, 0, 0, 300, 500},
